@@ -55,10 +55,13 @@ def run(tier):
     sizes = list(range(0, 65)) + [s for p in (PAGE, 2 * PAGE, 3 * PAGE) for s in range(p - 16, p + 17)]
     if full:
         sizes += [rnd.randrange(65, 4 * PAGE) for _ in range(400)] + [4 * PAGE, 16 * PAGE, 16 * PAGE + 1]
+    # sizes around the powers of two a chunked reader might use as window (64 KiB, 1 MiB) and well beyond; the contents are lines of
+    # 16 different lengths, so a window of any size ends in the middle of a line somewhere
+    sizes += [65535, 65536, 65537, 262144 + 3, 1048575, 1048576, 1048577, 1048576 + 4096 + 7, 1300000] + ([3 * 1048576 + 5, 4194304, 8388608 + 11] if full else [])
     cases, meta = [], []
     fid = 0
     for size in sizes:
-        for ending in ("nl", "nonl", "comment", "instr", "lastinstr", "lastret"):
+        for ending in (("nl", "nonl", "comment", "instr", "lastinstr", "lastret") if size < 60000 else ("nl", "lastinstr")):
             text = content(size, ending, rnd)
             assert len(text) == size, (size, ending, len(text))
             fid += 1
